@@ -57,6 +57,12 @@ func (r qres) status() string {
 	return "ok"
 }
 
+// panicSig is C08|panic|<perkeep function that panicked>|<normalised message>.
+func (r qres) panicSig() string {
+	site, msg, _ := strings.Cut(refRE.ReplaceAllString(r.panic, "REF"), ": ")
+	return "C08|panic|" + site + "|" + msg
+}
+
 func (w *W) query(c *search.Constraint, st search.SortType, limit int) qres {
 	lastSource = "?"
 	res, err, p := runQuery(w, &search.SearchQuery{Constraint: c, Sort: st, Limit: limit})
@@ -128,7 +134,7 @@ func (ck *checker) generic(t *tree, fs *[]finding) genRes {
 	ck.st.queries++
 	g := genRes{status: r.status()}
 	if r.panic != "" {
-		*fs = append(*fs, ck.finding(t, "C08|panic|"+r.source+"|"+r.status(), "generic-source query panicked: "+r.panic, "unsorted", -1))
+		*fs = append(*fs, ck.finding(t, r.panicSig(), "generic-source query panicked: "+r.panic, "unsorted", -1))
 	}
 	if !r.failed() {
 		if r.source != "index_blob_meta" {
@@ -136,7 +142,7 @@ func (ck *checker) generic(t *tree, fs *[]finding) genRes {
 		}
 		s, dup, alien := ck.w.toSet(r.refs)
 		if dup != nil {
-			*fs = append(*fs, ck.finding(t, "C08|dup|"+r.source+"|"+ck.kindOf(*dup), fmt.Sprintf("generic-source query returned %s twice", ck.w.byRef[*dup].name), "unsorted", -1))
+			*fs = append(*fs, ck.finding(t, "C08|dup|"+r.source, fmt.Sprintf("generic-source query returned %s twice", ck.w.byRef[*dup].name), "unsorted", -1))
 		}
 		if alien != nil {
 			*fs = append(*fs, ck.finding(t, "C08|alien|"+r.source, fmt.Sprintf("generic-source query returned %v which was never indexed", *alien), "unsorted", -1))
@@ -166,9 +172,15 @@ func (ck *checker) finding(t *tree, sig, what, sortName string, limit int) findi
 		replay: map[string]any{"class": ck.w.class, "mode": ck.w.mode, "tree": t.key(), "sort": sortName, "limit": limit}}
 }
 
-// diffKinds describes got vs want as missing:<kinds> / extra:<kinds> (sorted, deduplicated blob kinds).
-func (ck *checker) diffKinds(got, want set) (string, string) {
-	var parts, detail []string
+// diffKinds lists got vs want as one entry per (direction, blob kind):
+// "missing:<kind>" (in want, not in got) / "extra:<kind>", each with the blob names.
+type kindDiff struct {
+	label  string // missing:<kind> or extra:<kind>
+	detail string
+}
+
+func (ck *checker) diffKinds(got, want set) []kindDiff {
+	var out []kindDiff
 	for _, d := range []struct {
 		label string
 		s     set
@@ -176,19 +188,45 @@ func (ck *checker) diffKinds(got, want set) (string, string) {
 		if d.s == 0 {
 			continue
 		}
-		seen := map[string]bool{}
+		byKind := map[string]set{}
 		var kinds []string
 		for i, b := range ck.w.blobs {
-			if d.s&(1<<uint(i)) != 0 && !seen[b.kind] {
-				seen[b.kind] = true
-				kinds = append(kinds, b.kind)
+			if d.s&(1<<uint(i)) != 0 {
+				if _, ok := byKind[b.kind]; !ok {
+					kinds = append(kinds, b.kind)
+				}
+				byKind[b.kind] |= 1 << uint(i)
 			}
 		}
 		sortStrings(kinds)
-		parts = append(parts, d.label+":"+strings.Join(kinds, "+"))
-		detail = append(detail, fmt.Sprintf("%s %v", d.label, ck.w.names(d.s)))
+		for _, k := range kinds {
+			out = append(out, kindDiff{d.label + ":" + k, fmt.Sprintf("%s %v", d.label, ck.w.names(byKind[k]))})
+		}
 	}
-	return strings.Join(parts, ","), strings.Join(detail, "; ")
+	return out
+}
+
+func joinDiffs(ds []kindDiff) (labels, details string) {
+	var l, d []string
+	for _, x := range ds {
+		l = append(l, x.label)
+		d = append(d, x.detail)
+	}
+	return strings.Join(l, ","), strings.Join(d, "; ")
+}
+
+// plannerSig is C08|planner|<candidate source>|<missing|extra>:<blob kind>; for the
+// camliNodeType-restricted source it also says whether the tree has an "or" node.
+func plannerSig(t *tree, source, label string) string {
+	sig := "C08|planner|" + source + "|" + label
+	if source == "corpus_permanode_types" {
+		if t.hasOp("or") {
+			sig += "|under-or"
+		} else {
+			sig += "|no-or"
+		}
+	}
+	return sig
 }
 
 func sortStrings(s []string) {
@@ -203,7 +241,8 @@ func sortStrings(s []string) {
 
 // createdKey: the content file's time if the permanode has camliContent, else the newest claim date.
 func (ck *checker) createdKey(m *mblob) (time.Time, bool) {
-	if m.typ != "permanode" || len(m.claims) == 0 {
+	// deleted permanode: whether its delete claim counts as a modification is not documented
+	if m.typ != "permanode" || len(m.claims) == 0 || m.deleted {
 		return time.Time{}, false
 	}
 	for _, v := range m.attrsAt(time.Time{})["camliContent"] {
@@ -217,7 +256,7 @@ func (ck *checker) createdKey(m *mblob) (time.Time, bool) {
 }
 
 func (ck *checker) modKey(m *mblob) (time.Time, bool) {
-	if m.typ != "permanode" || len(m.claims) == 0 {
+	if m.typ != "permanode" || len(m.claims) == 0 || m.deleted {
 		return time.Time{}, false
 	}
 	return m.modTime(), true
@@ -312,7 +351,7 @@ func (ck *checker) checkTree(t *tree, brute bool) []finding {
 			}
 			ck.st.comparisons++
 			if want != g.s {
-				d, detail := ck.diffKinds(g.s, want)
+				d, detail := joinDiffs(ck.diffKinds(g.s, want))
 				fs = append(fs, ck.finding(t, "C08|compose|"+t.op+"|"+ck.handlerKind(),
 					fmt.Sprintf("truth set of %s is not the %s-combination of its children's truth sets (%s; %s)", t.key(), t.op, d, detail), "unsorted", -1))
 			}
@@ -332,14 +371,14 @@ func (ck *checker) checkTree(t *tree, brute bool) []finding {
 			note(r, search.Unsorted)
 			if r.failed() {
 				if r.panic != "" {
-					fs = append(fs, ck.finding(t, "C08|panic|"+r.source+"|"+r.status(), "one-blob query for "+b.name+" panicked: "+r.panic, "unsorted", -1))
+					fs = append(fs, ck.finding(t, r.panicSig(), "one-blob query for "+b.name+" panicked: "+r.panic, "unsorted", -1))
 				}
 				bad = true
 				continue
 			}
 			s, dup, alien := w.toSet(r.refs)
 			if dup != nil {
-				fs = append(fs, ck.finding(t, "C08|dup|"+r.source+"|"+ck.kindOf(*dup), fmt.Sprintf("and(blobRefPrefix:%s, t) returned it twice", b.name), "unsorted", -1))
+				fs = append(fs, ck.finding(t, "C08|dup|"+r.source, fmt.Sprintf("and(blobRefPrefix:%s, t) returned it twice", b.name), "unsorted", -1))
 			}
 			if alien != nil || s&^(1<<uint(i)) != 0 {
 				fs = append(fs, ck.finding(t, "C08|planner|"+r.source+"|one-blob-returns-other", fmt.Sprintf("and(blobRefPrefix:%s, t) returned %v", b.name, w.names(s)), "unsorted", -1))
@@ -352,7 +391,7 @@ func (ck *checker) checkTree(t *tree, brute bool) []finding {
 				if got {
 					dir = "extra"
 				}
-				fs = append(fs, ck.finding(t, fmt.Sprintf("C08|planner|%s|%s:%s", r.source, dir, b.kind),
+				fs = append(fs, ck.finding(t, plannerSig(t, r.source, dir+":"+b.kind),
 					fmt.Sprintf("and(blobRefPrefix:%s, t) planned as %s says %v but the generic source says %v", b.name, r.source, got, !got), "unsorted", -1))
 			}
 			bs |= s & (1 << uint(i))
@@ -367,23 +406,24 @@ func (ck *checker) checkTree(t *tree, brute bool) []finding {
 		ck.st.queries++
 		note(full, st)
 		if full.panic != "" {
-			fs = append(fs, ck.finding(t, "C08|panic|"+full.source+"|"+full.status(), "query panicked: "+full.panic, sn, -1))
+			fs = append(fs, ck.finding(t, full.panicSig(), "query panicked: "+full.panic, sn, -1))
 		}
 		if full.failed() {
 			continue
 		}
 		fullSet, dup, alien := w.toSet(full.refs)
 		if dup != nil {
-			fs = append(fs, ck.finding(t, "C08|dup|"+full.source+"|"+ck.kindOf(*dup), fmt.Sprintf("%s returned twice (source %s): %v", w.byRef[*dup].name, full.source, ck.refNames(full.refs)), sn, -1))
+			fs = append(fs, ck.finding(t, "C08|dup|"+full.source, fmt.Sprintf("%s returned twice (source %s): %v", w.byRef[*dup].name, full.source, ck.refNames(full.refs)), sn, -1))
 		}
 		if alien != nil {
 			fs = append(fs, ck.finding(t, "C08|alien|"+full.source, fmt.Sprintf("returned %v which was never indexed", *alien), sn, -1))
 		}
 		ck.st.comparisons++
 		if fullSet != g.s {
-			d, detail := ck.diffKinds(fullSet, g.s)
-			fs = append(fs, ck.finding(t, "C08|planner|"+full.source+"|"+d,
-				fmt.Sprintf("result set with candidate source %s differs from the generic source + same matcher: %s", full.source, detail), sn, -1))
+			for _, d := range ck.diffKinds(fullSet, g.s) {
+				fs = append(fs, ck.finding(t, plannerSig(t, full.source, d.label),
+					fmt.Sprintf("result set with candidate source %s differs from the generic source + same matcher: %s", full.source, d.detail), sn, -1))
+			}
 		}
 		effSort := st
 		if st == search.UnspecifiedSort && full.source == "corpus_permanode_created" {
@@ -404,11 +444,12 @@ func (ck *checker) checkTree(t *tree, brute bool) []finding {
 			ck.st.queries++
 			ck.sc.Outcome(fmt.Sprintf("%s|%s|%s|limit%d|%s|n=%d", r.source, shape, sn, lim, r.status(), len(r.refs)))
 			if r.panic != "" {
-				fs = append(fs, ck.finding(t, "C08|panic|"+r.source+"|"+r.status(), "query panicked: "+r.panic, sn, lim))
+				fs = append(fs, ck.finding(t, r.panicSig(), "query panicked: "+r.panic, sn, lim))
+				continue
 			}
 			if r.failed() {
 				// the same query without a limit succeeded
-				fs = append(fs, ck.finding(t, "C08|limit|"+sn+"|"+ck.handlerKind()+"|fails-only-with-limit", "query fails with a limit but not without: "+r.status(), sn, lim))
+				fs = append(fs, ck.finding(t, "C08|limit|"+ck.handlerKind()+"|fails-only-with-limit|"+sn, "query fails with a limit but not without: "+r.status(), sn, lim))
 				continue
 			}
 			n := lim
@@ -421,19 +462,22 @@ func (ck *checker) checkTree(t *tree, brute bool) []finding {
 			}
 			s, dup, alien := w.toSet(r.refs)
 			ck.st.comparisons++
+			// C08|limit|<handler kind>|wrong-result|<leaf group>: the limited result is not the
+			// first N of the unlimited one (too few, other blobs, or not the first ones)
+			wrongSig := "C08|limit|" + ck.handlerKind() + "|wrong-result|" + t.leafGroup()
 			switch {
 			case dup != nil:
-				fs = append(fs, ck.finding(t, "C08|dup|"+r.source+"|"+ck.kindOf(*dup), fmt.Sprintf("%s returned twice: %v", w.byRef[*dup].name, ck.refNames(r.refs)), sn, lim))
+				fs = append(fs, ck.finding(t, "C08|dup|"+r.source, fmt.Sprintf("%s returned twice: %v", w.byRef[*dup].name, ck.refNames(r.refs)), sn, lim))
 			case alien != nil:
 				fs = append(fs, ck.finding(t, "C08|alien|"+r.source, fmt.Sprintf("returned %v which was never indexed", *alien), sn, lim))
 			case s&^fullSet != 0:
-				fs = append(fs, ck.finding(t, "C08|limit|"+sn+"|"+ck.handlerKind()+"|not-in-full-result",
+				fs = append(fs, ck.finding(t, wrongSig,
 					fmt.Sprintf("limited result %v has blobs that the unlimited result %v lacks", ck.refNames(r.refs), ck.refNames(full.refs)), sn, lim))
 			case len(r.refs) > n:
-				fs = append(fs, ck.finding(t, "C08|limit|"+sn+"|"+ck.handlerKind()+"|exceeds-limit",
+				fs = append(fs, ck.finding(t, "C08|limit|"+ck.handlerKind()+"|exceeds-limit|"+sn,
 					fmt.Sprintf("%d results for limit %d: %v", len(r.refs), n, ck.refNames(r.refs)), sn, lim))
 			case len(r.refs) != want:
-				fs = append(fs, ck.finding(t, "C08|limit|"+sn+"|"+ck.handlerKind()+"|too-few",
+				fs = append(fs, ck.finding(t, wrongSig,
 					fmt.Sprintf("%d results for limit %d although the unlimited result has %d: %v vs %v", len(r.refs), n, len(full.refs), ck.refNames(r.refs), ck.refNames(full.refs)), sn, lim))
 			default:
 				// ordered, and nothing left out sorts strictly before something returned
@@ -454,7 +498,7 @@ func (ck *checker) checkTree(t *tree, brute bool) []finding {
 					}
 				}
 				if !okOrder {
-					fs = append(fs, ck.finding(t, "C08|limit|"+sn+"|"+ck.handlerKind()+"|not-first-n",
+					fs = append(fs, ck.finding(t, wrongSig,
 						fmt.Sprintf("limited result %v is not the first %d of the full ordered result %v", ck.refNames(r.refs), n, ck.refNames(full.refs)), sn, lim))
 				}
 			}
